@@ -91,3 +91,29 @@ def c_harsch(k):
     Ei, Fi, G, G0, K, K0 = _inputs(k, nonzero_gamma=True)
     mat = mm.Harsch2021(Ei, Fi)
     _hyper(k, mat, G, G0, K, K0)
+
+
+@contract("C12", "material laws/stiffnesses of any numeric type", samples=0, replayable=False, timeout=30)
+def c_dtypes(k):
+    """stiffness vectors given as integer arrays or Python lists (test_cantilever.py itself passes np.array([5, 1, 1])) describe
+    the same material as their float values: compliance matrices are the inverses, the complementary energy is the
+    Legendre dual, forces and tangents agree with the float-typed material (executed natively)"""
+    from vk import kit as K
+    from vk import npshim
+
+    if not k.sym:
+        raise K.Reject("decided by native execution")
+    k.covers(mm.Simo1986.__init__, mm.Harsch2021.__init__)
+    rng = np.random.default_rng(12)
+    with npshim.active(False):
+        G, G0, Kp, K0 = rng.normal(size=3) + np.array([1, 0, 0]), np.array([1.0, 0, 0]) + 0.1 * rng.normal(size=3), 0.3 * rng.normal(size=3), 0.2 * rng.normal(size=3)
+        for tag, Ei, Fi in (("int64 arrays", np.array([5, 2, 3]), np.array([4, 7, 2])), ("python lists of ints", [5, 2, 3], [4, 7, 2]), ("float32 arrays", np.array([5, 2, 3], dtype=np.float32), np.array([4, 7, 2], dtype=np.float32))):
+            ref = mm.Simo1986(np.array([5.0, 2, 3]), np.array([4.0, 7, 2]))
+            m = mm.Simo1986(Ei, Fi)
+            k.prove(f"Simo1986 [{tag}]: C_n_inv C_n = 1 and C_m_inv C_m = 1", bool(np.allclose(np.asarray(m.C_n_inv, dtype=float) @ np.asarray(m.C_n, dtype=float), np.eye(3)) and np.allclose(np.asarray(m.C_m_inv, dtype=float) @ np.asarray(m.C_m, dtype=float), np.eye(3))))
+            n, mo = m.B_n(G, G0, Kp, K0), m.B_m(G, G0, Kp, K0)
+            k.prove(f"Simo1986 [{tag}]: forces and couples equal those of the float-typed material", bool(np.allclose(n, ref.B_n(G, G0, Kp, K0)) and np.allclose(mo, ref.B_m(G, G0, Kp, K0))))
+            k.prove(f"Simo1986 [{tag}]: Fenchel equality W + W* = n . dGamma + m . dKappa", bool(np.isclose(m.potential(G, G0, Kp, K0) + m.complementary_potential(n, mo), n @ (G - G0) + mo @ (Kp - K0))))
+            h = mm.Harsch2021(Ei, Fi)
+            href = mm.Harsch2021(np.array([5.0, 2, 3]), np.array([4.0, 7, 2]))
+            k.prove(f"Harsch2021 [{tag}]: potential, forces and tangent equal those of the float-typed material", bool(np.isclose(h.potential(G, G0, Kp, K0), href.potential(G, G0, Kp, K0)) and np.allclose(h.B_n(G, G0, Kp, K0), href.B_n(G, G0, Kp, K0)) and np.allclose(h.B_n_B_Gamma(G, G0, Kp, K0), href.B_n_B_Gamma(G, G0, Kp, K0))))
